@@ -2,7 +2,7 @@ CONSTANTS
   Alphabet = {"a", "b", "", ".", "..", "%2e%2e", "%2E.", "..%2f", "%2f", "a;p", "%252e%252e"}
   Plain = {"a", "b"}
   MaxLen = ${MaxLen}
-  BaseIds = {"none", "root", "base", "nested"}
+  BaseIds = {"none", "root", "base", "nested", "bquery", "nquery"}
   Preserves = {TRUE, FALSE}
   Rels = {"slash"}
   Prefixes = {"/olla/proxy/"}
